@@ -122,7 +122,7 @@ impl Decider for Sched {
                 (None, Some(c)) => {
                     // Switch right after an existence check, a truncation, a lock release or
                     // between the files of a multi-file write; otherwise mostly keep going.
-                    let hot = matches!(self.last_kind.as_str(), "std.exists" | "std.mkdir" | "unlock" | "lock.got" | "blob.exists" | "dep.enter" | "dep.cloned" | "dep.fetched" | "resolve.cloned")
+                    let hot = matches!(self.last_kind.as_str(), "start" | "std.exists" | "std.mkdir" | "meta.mkdir" | "unlock" | "lock.got" | "blob.exists" | "dep.enter" | "dep.cloned" | "dep.fetched" | "resolve.cloned")
                         || self.last_kind.ends_with(".open")
                         || self.last_kind.ends_with(".data");
                     let p_switch = if hot { 3 } else { 1 };
